@@ -38,7 +38,7 @@ def build(tier, seed):
                 variants.append(('asc', 'implicit', 'hostile'))
             variants.append(('asc', 'mixed', 'default'))
             if n <= 50:
-                variants += [('shuf', 'explicit', 'hostile'), ('desc', 'fancy', 'dup'), ('runshuf', 'explicit', 'swap'), ('asc', 'fancy', 'default'), ('shuf', 'explicit', 'idents')]
+                variants += [('shuf', 'explicit', 'hostile'), ('desc', 'fancy', 'dup'), ('runshuf', 'explicit', 'swap'), ('asc', 'fancy', 'default'), ('shuf', 'explicit', 'idents'), ('asc', 'explicit', 'prefix')]
             else:
                 variants += [('desc', 'explicit', 'default')]
             light = label.startswith(('gapless_end_u', 'gapless_end_i', 'gapless_cross_', 'gapless_start_i', 'holes_at_', 'holes_span_mod'))
@@ -58,6 +58,8 @@ def build(tier, seed):
                         it = 'table'
                     c = D.full_config(a, f, t, it, wr, split=1 + (k + j) % 3)
                     c['repr_pos'] = ['last', 'first', 'middle'][(k + j) % 3]
+                    if (k + j) % 4 == 1:
+                        c['features'] = c['features'][::-1]      # the order in which features are listed is free
                     add(d, c)
                     k += 1
     # the complete mode product on a few small declarations (C09 matrix)
@@ -95,6 +97,20 @@ def build(tier, seed):
                     add(d, D.config([f], {f: mm}), kind='single', classes=[f, str(mm)])
                     if f == 'iter' and m != 'table_inline':
                         add(d, D.config(['iter', 'range'], {'iter': mm}), kind='single', classes=['iter+range', str(mm)])
+    # names swapped between features, mixed visibilities, and a second derive in the same module
+    for r, label, vals in [('i8', 'holes_neg_later', [-10, -9, -5, -4, 3]), ('u16', 'gapless_pos', [5, 6, 7])]:
+        d = D.make_decl(r, label, vals, 'shuf', 'explicit', 'hostile', rnd, vis='pub')
+        gap = d['gapless']
+        for sib in (None, 'as_str, from_str, into, MAX, MIN, next, next_back, try_from, Debug, Display, FromStr, Into, IntoStr, TryFrom, iter, names, range'):
+            dd = dict(d)
+            if sib:
+                dd['sibling'] = sib
+            params = {'next': {'name': 'next_back', 'vis': ''}, 'next_back': {'name': 'next', 'vis': 'pub'}, 'MIN': {'name': 'MAX'}, 'MAX': {'name': 'MIN', 'vis': 'pub(crate)'},
+                      'as_str': {'name': 'into', 'vis': ''}, 'into': {'name': 'as_str'}, 'from_str': {'name': 'try_from'}, 'try_from': {'name': 'from_str', 'vis': 'pub(crate)'},
+                      'iter': {'name': 'names', 'struct_name': 'ENames', 'vis': 'pub'}, 'names': {'name': 'iter', 'struct_name': 'EIter'}, 'range': {'name': 'range_of', 'vis': 'pub(crate)'}}
+            for it in (['range', 'next_and_back', 'table'] if gap else ['next_and_back', 'table', None]):
+                add(dd, D.config(D.ALL_FEATURES, {'iter': it, 'as_str': 'table', 'from_str': 'table'}, params, split=2), kind='swapnames', classes=['sibling=' + str(bool(sib)), 'iter=' + str(it)])
+            add(dd, D.full_config('match', None, 'table', 'next_and_back', True, split=1), kind='sibling' if sib else 'full')
     # enums declared inside a function body (the derive output must be valid as block-level items)
     for r, label, vals in [('i8', 'holes_neg_later', [-10, -9, -5, -4, 3]), ('u64', 'gapless_pos', [5, 6, 7])]:
         d = D.make_decl(r, label, vals, 'shuf', 'explicit', 'hostile', rnd, vis='')
